@@ -32,6 +32,8 @@ const (
 type Fact struct {
 	Nil    tri
 	Bool   tri
+	Zero   bool // integer known to be 0 (loop counters entering a loop)
+	Neg1   bool // integer known to be -1 (go/ssa range loops start their counter at -1)
 	Tags   Tag
 	OkNil  EffSet // effects gained when this (error) value is proven nil
 	OkTrue EffSet // effects gained when this bool is proven true
@@ -71,6 +73,8 @@ type State struct {
 	may    EffSet
 	lk     LockState
 	iter   EffSet // effects since the last loop-iteration mark (ITER queries)
+	lenpos map[vkey]tri // is len(param) > 0 ? (correlates loops over the same slice)
+	User   uint64       // scratch bits owned by the rule listener (part of the state identity)
 	steps  int
 	mask   EffSet
 	trackIter bool
@@ -78,6 +82,7 @@ type State struct {
 
 type Valuation struct {
 	Cache, Async tri // triUnk: explore both
+	FileExists   tri // result of the isFileAndExist predicate
 }
 
 func (v Valuation) String() string {
@@ -90,7 +95,11 @@ func (v Valuation) String() string {
 		}
 		return "*"
 	}
-	return "cache=" + f(v.Cache) + ",async=" + f(v.Async)
+	s := "cache=" + f(v.Cache) + ",async=" + f(v.Async)
+	if v.FileExists != triUnk {
+		s += ",fileExists=" + f(v.FileExists)
+	}
+	return s
 }
 
 type EvKind int
@@ -102,6 +111,7 @@ const (
 	EvCall    // before inlining / applying a call (static callee known)
 	EvCallRet // after an inlined call returned
 	EvIdxContainerStore
+	EvStoreResult // store to a named result variable
 )
 
 type Event struct {
@@ -111,6 +121,8 @@ type Event struct {
 	Tags   Tag // subject tags (base object / path)
 	VTags  Tag // tags of the stored value, if any
 	Callee *ssa.Function
+	Results []Fact // EvCallRet: facts of the returned values
+	VFact  Fact   // EvStoreResult: fact of the stored value
 	// lock events
 	LockClass string // "H","S","M","T"
 	LockOp    extKind
@@ -135,12 +147,14 @@ type Explorer struct {
 	MaxDepth int
 	MaxStates int
 	AssumeTblStable bool // after a successful schema acquisition, table lookups hit
+	AssumeStorePresent bool // comma-ok lookups of a per-type map in an object store succeed (rules about "what is pending gets flushed")
 	Mask     EffSet // effects tracked in must/may (others are reported as events but not remembered)
 	Opaque   EffSet // a callee whose closure is within this set is not inlined
 
 	// loop-body mode
 	LoopFn     *ssa.Function
 	LoopHeader *ssa.BasicBlock
+	LoopBlocks map[*ssa.BasicBlock]bool
 
 	visited  map[uint64]struct{}
 	ids      map[ssa.Value]int
@@ -184,7 +198,7 @@ func (st *State) depth() int32 { return int32(len(st.frames) - 1) }
 func (st *State) top() *Frame  { return &st.frames[len(st.frames)-1] }
 
 func (st *State) clone() *State {
-	n := &State{must: st.must, may: st.may, lk: st.lk, iter: st.iter, steps: st.steps, mask: st.mask, trackIter: st.trackIter}
+	n := &State{must: st.must, may: st.may, lk: st.lk, iter: st.iter, steps: st.steps, mask: st.mask, trackIter: st.trackIter, User: st.User}
 	n.frames = make([]Frame, len(st.frames))
 	copy(n.frames, st.frames)
 	for i := range n.frames {
@@ -207,10 +221,26 @@ func (st *State) clone() *State {
 	for k, v := range st.facts {
 		n.facts[k] = v
 	}
+	if len(st.lenpos) > 0 {
+		n.lenpos = make(map[vkey]tri, len(st.lenpos))
+		for k, v := range st.lenpos {
+			n.lenpos[k] = v
+		}
+	}
 	return n
 }
 
 func (st *State) add(e Eff) {
+	switch e {
+	case EIdxWLive, ECfgW:
+		if st.mask.Has(EDirty) {
+			st.must = st.must.With(EDirty)
+			st.may = st.may.With(EDirty)
+		}
+	case EFsWSchema:
+		st.must = st.must.Minus(effs(EDirty))
+		st.may = st.may.Minus(effs(EDirty))
+	}
 	if !st.mask.Has(e) {
 		return
 	}
@@ -253,6 +283,13 @@ func (st *State) factOf(v ssa.Value) Fact {
 				f.Bool = triYes
 			} else {
 				f.Bool = triNo
+			}
+		} else if b, ok := c.Type().Underlying().(*types.Basic); ok && b.Info()&types.IsInteger != 0 {
+			switch c.Value.String() {
+			case "0":
+				f.Zero = true
+			case "-1":
+				f.Neg1 = true
 			}
 		}
 		return f
@@ -474,6 +511,7 @@ func (x *Explorer) hash(st *State) uint64 {
 		}
 		return 0
 	}
+	buf = putInt(buf, -4, int(st.User))
 	buf = putInt(buf, -2, int(st.must[0]), int(st.must[1]), int(st.may[0]), int(st.may[1]), int(st.iter[0]), int(st.iter[1]),
 		int(lk.H), int(lk.HDepth), int(lk.S), int(lk.M), b2i(lk.SW), b2i(lk.MW), int(lk.T))
 	type ent struct {
@@ -499,8 +537,30 @@ func (x *Explorer) hash(st *State) uint64 {
 	})
 	for _, e := range ents {
 		f := st.facts[e.s]
-		buf = putInt(buf, e.a, e.b, e.c, int(e.s.d), int(e.s.i), x.vid(e.s.v), int(f.Nil), int(f.Bool), int(f.Tags),
+		z := 0
+		if f.Zero {
+			z = 1
+		}
+		if f.Neg1 {
+			z = 2
+		}
+		buf = putInt(buf, e.a, e.b, e.c, int(e.s.d), int(e.s.i), x.vid(e.s.v), int(f.Nil), int(f.Bool), z, int(f.Tags),
 			int(f.OkNil[0]), int(f.OkNil[1]), int(f.OkTrue[0]), int(f.OkTrue[1]))
+	}
+	if len(st.lenpos) > 0 {
+		var lp [][3]int
+		for k, v := range st.lenpos {
+			lp = append(lp, [3]int{int(k.d), x.vid(k.v), int(v)})
+		}
+		sort.Slice(lp, func(i, j int) bool {
+			if lp[i][0] != lp[j][0] {
+				return lp[i][0] < lp[j][0]
+			}
+			return lp[i][1] < lp[j][1]
+		})
+		for _, e := range lp {
+			buf = putInt(buf, -3, e[0], e[1], e[2])
+		}
 	}
 	x.hbuf = buf
 	x.ebuf = ents[:0]
@@ -513,12 +573,13 @@ func (x *Explorer) hash(st *State) uint64 {
 
 // Run explores all abstract paths of the root function.
 func (x *Explorer) Run() {
-	st := &State{env: map[vkey]Sym{}, cells: map[vkey]Sym{}, facts: map[Sym]Fact{}, mask: x.Mask.With(ETblHas), trackIter: x.LoopHeader != nil}
+	st := &State{env: map[vkey]Sym{}, cells: map[vkey]Sym{}, facts: map[Sym]Fact{}, mask: x.Mask.With(ETblHas)}
 	fn := x.Root
 	start := fn.Blocks[0]
 	if x.LoopHeader != nil {
+		// loop mode: run the function from its entry; iteration tracking starts at the first arrival at the header
 		fn = x.LoopFn
-		start = x.LoopHeader
+		start = fn.Blocks[0]
 	}
 	st.frames = []Frame{{fn: fn, blk: start}}
 	// root parameters: receiver / args of unknown provenance
@@ -550,11 +611,21 @@ func (x *Explorer) enterBlock(st *State, b *ssa.BasicBlock) bool {
 	fr.prev = fr.blk
 	fr.blk = b
 	fr.pc = 0
-	// loop-body mode: reaching the header again ends the iteration
-	if x.LoopHeader != nil && len(st.frames) == 1 && b == x.LoopHeader {
-		x.Paths++
-		x.L.End(x, st, "backedge")
-		return false
+	// loop mode: the first arrival at the header starts an iteration, the next one ends it
+	if x.LoopHeader != nil && len(st.frames) == 1 {
+		if b == x.LoopHeader {
+			if st.trackIter {
+				x.Paths++
+				x.L.End(x, st, "backedge")
+				return false
+			}
+			st.trackIter = true
+			st.iter = EffSet{}
+		} else if st.trackIter && x.LoopBlocks != nil && !x.LoopBlocks[b] {
+			// left the loop without returning
+			x.L.End(x, st, "loopexit")
+			return false
+		}
 	}
 	// phis (simultaneous assignment)
 	type bind struct {
@@ -689,6 +760,20 @@ func (x *Explorer) refine(st *State, cond ssa.Value, truth bool) bool {
 			}
 		}
 	case *ssa.BinOp:
+		if p, pos, ok := x.lenPosPattern(st, c); ok {
+			want := triNo
+			if pos == truth {
+				want = triYes
+			}
+			k := vkey{st.depth(), p}
+			if cur := st.lenpos[k]; cur != triUnk && cur != want {
+				return false
+			}
+			if st.lenpos == nil {
+				st.lenpos = map[vkey]tri{}
+			}
+			st.lenpos[k] = want
+		}
 		if c.Op == token.EQL || c.Op == token.NEQ {
 			eq := (c.Op == token.EQL) == truth // operands are equal
 			for i, a := range []ssa.Value{c.X, c.Y} {
@@ -812,4 +897,46 @@ func (x *Explorer) loadTags(bt Tag, baseType types.Type, resultType types.Type) 
 		}
 	}
 	return t
+}
+
+// lenPosPattern recognises comparisons between len(parameter) and zero. It returns the parameter and
+// whether a true outcome means len > 0.
+func (x *Explorer) lenPosPattern(st *State, c *ssa.BinOp) (ssa.Value, bool, bool) {
+	lenParam := func(v ssa.Value) ssa.Value {
+		call, ok := v.(*ssa.Call)
+		if !ok {
+			return nil
+		}
+		b, ok := call.Call.Value.(*ssa.Builtin)
+		if !ok || b.Name() != "len" || len(call.Call.Args) != 1 {
+			return nil
+		}
+		switch a := call.Call.Args[0].(type) {
+		case *ssa.Parameter:
+			return a
+		case *ssa.FreeVar:
+			return a
+		}
+		return nil
+	}
+	isZero := func(v ssa.Value) bool { return st.factOf(v).Zero }
+	if p := lenParam(c.X); p != nil && isZero(c.Y) {
+		// len OP 0
+		switch c.Op {
+		case token.EQL, token.LEQ:
+			return p, false, true
+		case token.NEQ, token.GTR:
+			return p, true, true
+		}
+	}
+	if p := lenParam(c.Y); p != nil && isZero(c.X) {
+		// 0 OP len
+		switch c.Op {
+		case token.EQL, token.GEQ:
+			return p, false, true
+		case token.NEQ, token.LSS:
+			return p, true, true
+		}
+	}
+	return nil, false, false
 }
